@@ -399,3 +399,68 @@ Proof.
   destruct (bytes_eqb (odfi8 o) (repeat zero 9)) eqn:E; [|reflexivity].
   apply bytes_eqb_eq in E. apply (f_equal (@length _)) in E. unfold odfi8 in E. rewrite dec_length, repeat_length in E. lia.
 Qed.
+
+(* ---- recoding leaves count, hash, trace order and trace prefix alone ------------------ *)
+
+Lemma recode_count f es : calc_count (map (recode f) es) = calc_count es.
+Proof. induction es as [|e es IH]; cbn [map calc_count]; [reflexivity|]. now rewrite IH. Qed.
+
+Lemma recode_hash_sum f es : hash_sum (map (recode f) es) = hash_sum es.
+Proof. induction es as [|e es IH]; cbn [map hash_sum]; [reflexivity|]. now rewrite IH. Qed.
+
+Lemma recode_ascending f es : forall last, ascending last (map (recode f) es) = ascending last es.
+Proof.
+  induction es as [|e es IH]; intros last; cbn [map ascending]; [reflexivity|]. cbn [recode en_trace].
+  destruct (bytes_leb (en_trace e) last); [reflexivity|apply IH].
+Qed.
+
+Lemma recode_trace_prefix f es odfi :
+  forallb (fun e => bytes_eqb odfi (trace_prefix KStd e)) (map (recode f) es)
+  = forallb (fun e => bytes_eqb odfi (trace_prefix KStd e)) es.
+Proof. induction es as [|e es IH]; cbn [map forallb]; [reflexivity|]. now rewrite IH. Qed.
+
+Lemma recode_validate_entry T f e : validate_entry T KStd e = ROk ->
+  f (en_code e) <> 0 -> memz (f (en_code e)) (t_codes T) = true -> validate_entry T KStd (recode f e) = ROk.
+Proof.
+  intros Hv H0 Hm. unfold validate_entry in *. cbn [recode en_code en_rdfi en_amount] in *.
+  repeat match goal with H : _ ;; _ = ROk |- _ => apply andr_ok in H; destruct H end.
+  repeat (rewrite andr_ok; split); try assumption.
+  - apply chk_intro. now apply negb_true_iff, Z.eqb_neq.
+  - now apply chk_intro.
+Qed.
+
+(* ---- File.Validate of a non-ADV file, as a conjunction ------------------------------------ *)
+
+Record file_facts (T : tables) (f : file) : Prop := mkff {
+  ff_count : fc_batches (fl_ctl f) = Z.of_nat (length (fl_batches f)) + Z.of_nat (length (fl_iat f));
+  ff_batches : Forall (fun b => validate_batch T b = ROk) (fl_batches f);
+  ff_ctl : validate_fctl T (fl_ctl f) = ROk;
+  ff_ecount : fc_count (fl_ctl f) = sumz (fun b => bc_count (bt_ctl b)) (all_batches f);
+  ff_debit : fc_debit (fl_ctl f) = sumz (fun b => bc_debit (bt_ctl b)) (all_batches f);
+  ff_credit : fc_credit (fl_ctl f) = sumz (fun b => bc_credit (bt_ctl b)) (all_batches f);
+  ff_asc : numbers_ascending 0 (fl_batches f) = true;
+  ff_hash : least_sig (sumz (fun b => bc_hash (bt_ctl b)) (all_batches f)) (t_hash_digits T) = fc_hash (fl_ctl f) }.
+
+Lemma validate_file_facts T f : is_adv_file f = false -> validate_file T f = ROk <-> file_facts T f.
+Proof.
+  intros Ha. unfold validate_file. rewrite Ha. cbv zeta. unfold file_sums, file_hash_ok. split.
+  - intros H. repeat match goal with H : _ ;; _ = ROk |- _ => apply andr_ok in H; destruct H end.
+    match goal with H : first_fail _ _ = ROk |- _ => apply first_fail_ok in H end.
+    ok_split. repeat match goal with H : (_ =? _) = true |- _ => apply Z.eqb_eq in H end.
+    constructor; assumption.
+  - intros [F1 F2 F3 F4 F5 F6 F7 F8].
+    repeat (rewrite andr_ok; split); try assumption; try (apply chk_intro; try assumption; now apply Z.eqb_eq).
+    now apply first_fail_intro.
+Qed.
+
+(* FileControl.Validate is symmetric in the two totals *)
+Lemma validate_fctl_swap T n c h d cr :
+  validate_fctl T (mkfctl n c h d cr) = ROk -> validate_fctl T (mkfctl n c h cr d) = ROk.
+Proof.
+  unfold validate_fctl. cbn [fc_batches fc_count fc_hash fc_debit fc_credit]. intros H.
+  repeat match goal with H : _ ;; _ = ROk |- _ => apply andr_ok in H; destruct H end.
+  repeat (rewrite andr_ok; split); try assumption.
+  - rewrite orb_comm. assumption.
+  - match goal with H : chk (cr <=? _) _ = ROk |- _ => apply chk_true in H; [|discriminate]; now apply chk_intro end.
+  - match goal with H : chk (d <=? _) _ = ROk |- _ => apply chk_true in H; [|discriminate]; now apply chk_intro end.
+Qed.
